@@ -1,5 +1,8 @@
 """C02 - solvency (DESIGN.md section 3, C02): BFS over operation histories of the real exchange."""
+from decimal import Decimal as D
+
 from checks import _exch_common as X
+from mc.framework import h64
 
 PROPERTY = "C02"
 RULE = ("state = canonical key of the real exchange reached by an operation history (balances, holds, borrowed, open "
@@ -14,36 +17,20 @@ ASSUMPTIONS = [
     "the synchronous driver is validated against the public-API driver on all short histories (conformance scenarios) "
     "and on every reported violation",
 ]
-SPEC = {'conf_quick': [('K2', 3)],
- 'conf_thorough': [('K2', 4), ('K4', 3)],
- 'quick': [('K1', 'ar', 6),
-           ('K16', 'cross', 4),
-           ('K1', 'std', 3),
-           ('K2', 'std', 3),
-           ('K13', 'lend', 4),
-           ('K4', 'small', 4),
-           ('K7', 'small', 3),
-           ('K12', 'lend', 4)],
- 'thorough': [('K1', 'ar', 8),
-              ('K10', 'ar', 8),
-              ('K13', 'ar', 8),
-              ('K16', 'cross', 5),
-              ('K0', 'std', 4),
-              ('K1', 'std', 4),
-              ('K2', 'std', 4),
-              ('K3', 'std', 4),
-              ('K4', 'std', 4),
-              ('K6', 'std', 4),
-              ('K8', 'std', 4),
-              ('K10', 'std', 4),
-              ('K13', 'std', 4),
-              ('K7', 'std', 3),
-              ('K1', 'small', 5),
-              ('K4', 'small', 5),
-              ('K13', 'lend', 5),
-              ('K12', 'lend', 5),
-              ('K10', 'lend', 5),
-              ('lasso', 'K13', 'lend', 3, 6)]}
+SPEC = {
+    'quick': [('K0', 'small', 4),
+              ('K1', 'ar', 6),
+              ('K16', 'cross', 4),
+              ('K1', 'std', 3),
+              ('K2', 'std', 3),
+              ('K13', 'lend', 4),
+              ('K4', 'small', 4),
+              ('K7', 'small', 3),
+              ('K12', 'lend', 4)],
+    'conf_quick': [('K2', 3)],
+    'conf_thorough': [('K2', 3), ('K4', 3)],
+}
+SPEC['thorough'] = X.thorough_spec(SPEC['quick'], [('K13', 'lend'), ('K12', 'lend')])
 BOUNDS = {t: dict(spec=SPEC[t]) for t in ("quick", "thorough")}
 EXPLANATION = ("explicit-state BFS over operation histories with state de-duplication; every transition executes the "
                "real exchange; traces_validated_against_impl = histories executed through BOTH drivers (sync and "
@@ -51,12 +38,86 @@ EXPLANATION = ("explicit-state BFS over operation histories with state de-duplic
 
 
 def scenarios(tier, seed):
-    return X.plan(PROPERTY, tier, SPEC)
+    return X.plan(PROPERTY, tier, SPEC) + [("overdraft", bp, qp) for bp, qp in ((8, 2), (0, 2), (2, 8), (8, 8))]
+
+
+# ---- requests that need the whole (large) balance plus a few precision units: never accepted, never a negative balance
+def _overdraft(sc, res):
+    import basana as bs
+    from basana.backtesting import exchange as ex, fees, liquidity, errors
+    from worlds import exch as _exch
+    from worlds.exch import PAIRS, T, call, SIDE
+    _exch.set_step({})
+    _, bp, qp = sc
+    P = PAIRS[0]
+    ub, uq = D(1).scaleb(-bp), D(1).scaleb(-qp)
+    for base_bal, quote_bal in ((D(100), D(20000000)), (D(10 ** 9) * ub, D(10 ** 9) * uq), (D(123456789), D("98765432.10")),
+                                (D(1), D(100))):
+        base_bal, quote_bal = base_bal.quantize(ub), quote_bal.quantize(uq)
+        for fee in (None, (1, 0)):
+            for k in (1, 5):
+                for kind, side in (("lim", "S"), ("mkt", "S"), ("stp", "S"), ("lim", "B"), ("sl", "B")):
+                    d = bs.backtesting_dispatcher()
+                    e = ex.Exchange(d, {"BTC": base_bal, "USD": quote_bal}, liquidity_strategy_factory=liquidity.InfiniteLiquidity,
+                                    fee_strategy=fees.NoFee() if fee is None else fees.Percentage(D(fee[0]), D(fee[1])))
+                    e.add_bar_source(bs.FifoQueueEventSource())
+                    e.set_pair_info(P, bs.PairInfo(bp, qp))
+                    e.set_symbol_precision("BTC", bp)
+                    e.set_symbol_precision("USD", qp)
+                    d._set_now(T(1))
+                    one = D(1)
+                    call(e._on_bar_event(bs.BarEvent(T(1), bs.Bar(T(0), P, one, one, one, one, D(10)))))
+                    try:
+                        if side == "S":
+                            amt = base_bal + k * ub  # k units more than the account owns
+                            if kind == "lim":
+                                call(e.create_limit_order(SIDE[side], P, amt, one))
+                            elif kind == "mkt":
+                                call(e.create_market_order(SIDE[side], P, amt))
+                            else:
+                                call(e.create_stop_order(SIDE[side], P, amt, one))
+                        else:
+                            # at price 1 the cost of n base units is n quote units: spend the whole quote balance + k units
+                            if bp < qp:
+                                continue
+                            amt = (quote_bal + k * uq).quantize(ub)
+                            if amt * one <= quote_bal:
+                                continue
+                            if kind == "lim":
+                                call(e.create_limit_order(SIDE[side], P, amt, one))
+                            else:
+                                call(e.create_stop_limit_order(SIDE[side], P, amt, one, one))
+                        accepted = True
+                    except errors.Error:
+                        accepted = False
+                    bal = call(e.get_balances())
+                    res.executions += 1
+                    res.transitions += 1
+                    res.validated += 1
+                    key = h64(("overdraft", bp, qp, str(base_bal), str(quote_bal), fee, k, kind, side))
+                    res.states.add(key)
+                    res.nontrivial.add(key)
+                    res.outcomes[("overdraft", accepted)] += 1
+                    neg = {s_: str(b.available) for s_, b in bal.items() if b.available < 0 or b.hold < 0 or b.borrowed < 0}
+                    case = dict(kind="overdraft", bp=bp, qp=qp, balances=[str(base_bal), str(quote_bal)], fee=fee, excess_units=k,
+                                order=[kind, side])
+                    if accepted or neg:
+                        res.violation(f"{PROPERTY}:overdraft-accepted", f"request needing {k} precision unit(s) more than the "
+                                      f"account owns was accepted; negative balances {neg}; {case}", case, size=k)
+    res.samples.append(dict(kind="overdraft", bp=bp, qp=qp))
+    return res
 
 
 def run_scenario(sc, tier):
+    if sc[0] == "overdraft":
+        from mc.framework import Result
+        return _overdraft(sc, Result())
     return X.run_scenario(PROPERTY, sc, tier)
 
 
 def replay(rep):
+    if rep.get("kind") == "overdraft":
+        from mc.framework import Result
+        res = _overdraft(("overdraft", rep["bp"], rep["qp"]), Result())
+        return [v["message"] for v in res.violations][:5]
     return X.replay(PROPERTY, rep)
